@@ -91,11 +91,15 @@ def decode(I, jm, v, mutated, path='$'):
     return v
 
 
-def differences(a, b, path, out, depth=0, owner=None, attr=None):
+def differences(a, b, path, out, depth=0, owner=None, attr=None, visited=None, pub=None):
     """attribute-wise comparison of the original and the decoded object; every difference is attributed to
-    the innermost enclosing object's class and attribute: out gets (class name, attribute, message)"""
+    the innermost enclosing object's class and attribute: out gets (class name, attribute, message).  A pair of
+    objects that is already being compared is not entered again (a reaction and the BEP relation it registers itself
+    with refer to each other)"""
     if depth > 10:
         return
+    if visited is None:
+        visited = set()
 
     def rec(msg):
         out.append((owner or '?', attr or '?', '%s: %s' % (path, msg)))
@@ -103,14 +107,19 @@ def differences(a, b, path, out, depth=0, owner=None, attr=None):
         if a.ci is not b.ci:
             rec('class %s became %s' % (a.ci.qual if a.ci else '?', b.ci.qual if b.ci else '?'))
             return
+        if (id(a), id(b)) in visited:
+            return
+        visited.add((id(a), id(b)))
         cname = a.ci.name if a.ci else '?'
         for k in sorted(set(a.attrs) | set(b.attrs)):
+            if pub is not None and not pub(a.ci, k):
+                continue
             if k not in b.attrs:
                 out.append((cname, k, '%s.%s: missing after decoding' % (path, k)))
             elif k not in a.attrs:
                 out.append((cname, k, '%s.%s: appears only after decoding' % (path, k)))
             else:
-                differences(a.attrs[k], b.attrs[k], '%s.%s' % (path, k), out, depth + 1, cname, k)
+                differences(a.attrs[k], b.attrs[k], '%s.%s' % (path, k), out, depth + 1, cname, k, visited, pub)
         return
     if isinstance(a, Obj) or isinstance(b, Obj):
         rec('%s became %s' % (show(a, 40), 'a plain dict' if isinstance(b, DictV) else show(b, 40)))
@@ -120,14 +129,14 @@ def differences(a, b, path, out, depth=0, owner=None, attr=None):
             rec('length %d became %d' % (len(a), len(b)))
             return
         for i, (x, y) in enumerate(zip(a.items, b.items)):
-            differences(x, y, '%s[%d]' % (path, i), out, depth + 1, owner, attr)
+            differences(x, y, '%s[%d]' % (path, i), out, depth + 1, owner, attr, visited, pub)
         return
     if isinstance(a, DictV) and isinstance(b, DictV):
         for k in sorted(set(a.d) | set(b.d), key=str):
             if k not in a.d or k not in b.d:
                 rec('key %r differs' % (k,))
             else:
-                differences(a.d[k], b.d[k], '%s[%r]' % (path, k), out, depth + 1, owner, attr)
+                differences(a.d[k], b.d[k], '%s[%r]' % (path, k), out, depth + 1, owner, attr, visited, pub)
         return
     if isinstance(a, Rat) and isinstance(b, Rat):
         if not a.eq(b):
@@ -170,9 +179,12 @@ def builders(I, repo):
     def new(qual, **kw):
         ci = repo.cls(qual)
         try:
-            return fr.apply(ci, [], kw, None)
+            o = fr.apply(ci, [], kw, None)
         except _RaisedExc as e:
             raise Problem('constructor of %s raises %s' % (qual, e.raised.exc))
+        if isinstance(o, Raised):
+            raise Problem('constructor of %s raises %s' % (qual, o.exc))
+        return o
 
     def arr(prefix, n):
         v = ListV([D.sym('%s%d' % (prefix, i)) for i in range(n)])
@@ -208,23 +220,26 @@ def builders(I, repo):
     add('IdealGasEOS', lambda: new('pmutt.eos.IdealGasEOS'))
     add('vanDerWaalsEOS', lambda: new('pmutt.eos.vanDerWaalsEOS', a=D.sym('vdwa'), b=D.sym('vdwb')))
 
-    def statmech(name='sp', refs=None, misc=None):
+    def statmech(name='sp', refs=None, misc=None, tag=None):
+        # tag: what the symbols of this species are called (two species may carry the same name, or none)
+        tag = tag or name
         return new(S + 'StatMech', name=name,
-                   trans_model=new(S + 'trans.FreeTrans', n_degrees=C(3), molecular_weight=D.sym('mw_' + name)),
-                   vib_model=new(S + 'vib.EinsteinVib', einstein_temperature=D.sym('thE_' + name),
-                                 interaction_energy=D.sym('u_' + name)),
+                   trans_model=new(S + 'trans.FreeTrans', n_degrees=C(3), molecular_weight=D.sym('mw_' + tag)),
+                   vib_model=new(S + 'vib.EinsteinVib', einstein_temperature=D.sym('thE_' + tag),
+                                 interaction_energy=D.sym('u_' + tag)),
                    rot_model=new(S + 'EmptyMode'),
-                   elec_model=new(S + 'elec.GroundStateElec', potentialenergy=D.sym('E_' + name),
-                                  spin=D.sym('spin_' + name)),
+                   elec_model=new(S + 'elec.GroundStateElec', potentialenergy=D.sym('E_' + tag),
+                                  spin=D.sym('spin_' + tag)),
                    nucl_model=new(S + 'nucl.EmptyNucl'),
-                   elements=DictV({'H': D.sym('nH_' + name)}), smiles='[HH]', notes='n1', references=refs,
+                   elements=DictV({'H': D.sym('nH_' + tag)}), smiles='[HH]', notes='n1', references=refs,
                    misc_models=misc)
     add('StatMech', lambda: statmech())
 
-    def nasa(name='nasa1', phase='G', misc=None, **extra):
-        return new('pmutt.empirical.nasa.Nasa', name=name, **extra, T_low=D.sym('Tl_' + name), T_mid=D.sym('Tm_' + name),
-                   T_high=D.sym('Th_' + name), a_low=arr('al_' + name, 7), a_high=arr('ah_' + name, 7),
-                   elements=DictV({'H': D.sym('nH_' + name)}), phase=phase, notes='nn', smiles='C', n_sites=D.sym('ns_' + name),
+    def nasa(name='nasa1', phase='G', misc=None, tag=None, **extra):
+        tag = tag or name
+        return new('pmutt.empirical.nasa.Nasa', name=name, **extra, T_low=D.sym('Tl_' + tag), T_mid=D.sym('Tm_' + tag),
+                   T_high=D.sym('Th_' + tag), a_low=arr('al_' + tag, 7), a_high=arr('ah_' + tag, 7),
+                   elements=DictV({'H': D.sym('nH_' + tag)}), phase=phase, notes='nn', smiles='C', n_sites=D.sym('ns_' + tag),
                    cat_site=new('pmutt.chemkin.CatSite', name='Pt', site_density=D.sym('sden'), density=D.sym('rho'),
                                 bulk_specie='Pt(B)'), misc_models=misc)
     add('Nasa[gas]', lambda: nasa())
@@ -331,7 +346,99 @@ def builders(I, repo):
                                        name='bep3', descriptor='rev_delta_H'))
     add('Reaction[no transition state]', lambda: rxn('pmutt.reaction.Reaction', transition_state=None,
                                                      transition_state_stoich=None, notes=None))
+
+    # ---- white-box review, round 2
+    # a transition state's imaginary mode (negative wavenumber, rank of wi below zero): dropped from, or replaced
+    # in, what the model computes with - the vib_wavenumbers the user gave must come back as given
+    for cls_, extra_ in (('HarmonicVib', {}), ('QRRHOVib', dict(Bav=D.sym('Bav'), v0=D.sym('v0'),
+                                                                alpha=D.sym('alpha')))):
+        add('%s[imaginary mode, no substitute]' % cls_,
+            lambda cls_=cls_, extra_=extra_: new(S + 'vib.' + cls_, vib_wavenumbers=ListV([D.sym('wi'), D.sym('w1')]),
+                                                 imaginary_substitute=None, **extra_))
+        add('%s[imaginary mode, substitute]' % cls_,
+            lambda cls_=cls_, extra_=extra_: new(S + 'vib.' + cls_, vib_wavenumbers=ListV([D.sym('wi'), D.sym('w1')]),
+                                                 imaginary_substitute=D.sym('wsub'), **extra_))
+
+    # a surface reaction whose transition state is an OpenMKM BEP relation: the reaction registers itself with the
+    # relation (back reference), in the list named by its direction
+    def bep_rxn(direction, rid):
+        return rxn('pmutt.omkm.reaction.SurfaceReaction', id=rid, is_adsorption=False, A=D.sym('Apre'),
+                   beta=D.sym('beta'), Ea=D.sym('Ea'), direction=direction, notes=None,
+                   transition_state=ListV([new('pmutt.omkm.reaction.BEP', slope=D.sym('bslope'),
+                                               intercept=D.sym('bicpt'), name='CH', descriptor='delta_H',
+                                               direction=direction)]))
+    add('SurfaceReaction[BEP transition state, cleavage]', lambda: bep_rxn('cleavage', 'r_0003'))
+    add('SurfaceReaction[BEP transition state, synthesis]', lambda: bep_rxn('synthesis', 'r_0004'))
+    # the numbers most often given for the kinetic parameters: zero
+    add('SurfaceReaction[beta and Ea zero]', lambda: rxn('pmutt.omkm.reaction.SurfaceReaction', id='r_0005',
+                                                         is_adsorption=False, A=D.sym('Apre'), beta=C(0), Ea=C(0),
+                                                         direction='cleavage', notes=None))
+    add('ChemkinReaction[beta zero, no adsorption]', lambda: rxn('pmutt.reaction.ChemkinReaction', beta=C(0),
+                                                                 is_adsorption=False, notes=None))
+
+    # a reaction set with more than one reaction in which species agree in their name and differ elsewhere (water as
+    # liquid and as vapour told apart by the phase), species without a name (name=None for every one of them), and a
+    # species that takes part in two reactions
+    def plain_rxn(reactants, rst, products, pst):
+        return new('pmutt.reaction.Reaction', reactants=ListV(reactants), reactants_stoich=ListV(rst),
+                   products=ListV(products), products_stoich=ListV(pst))
+
+    def shared_names():
+        wl, wg = nasa('w', 'L', tag='wl'), nasa('w', 'G', tag='wg')
+        u1, u2 = statmech(None, tag='u1'), statmech(None, tag='u2')
+        return ListV([plain_rxn([wl], [D.sym('nu1')], [wg], [D.sym('nu2')]),
+                      plain_rxn([wg, u1], [D.sym('nu3'), D.sym('nu4')], [u2], [D.sym('nu5')])])
+    add('Reactions[two reactions, species sharing a name]',
+        lambda: new('pmutt.reaction.Reactions', reactions=shared_names()))
+    add('PhaseDiagram[two reactions, species sharing a name]',
+        lambda: new('pmutt.reaction.phasediagram.PhaseDiagram', reactions=shared_names(),
+                    norm_factors=ListV([D.sym('nf0'), D.sym('nf1')])))
     return out
+
+
+def fingerprint(v, seen=None):
+    """the state of an object as a nested tuple (attribute names and values, identity of containers not included)"""
+    seen = {} if seen is None else seen
+    if isinstance(v, Obj):
+        if id(v) in seen:
+            return ('ref', seen[id(v)])
+        seen[id(v)] = len(seen)
+        return ('obj', v.ci.qual if v.ci else v.name,
+                tuple((k, fingerprint(x, seen)) for k, x in sorted(v.attrs.items(), key=lambda kv: str(kv[0]))))
+    if isinstance(v, ListV):
+        return ('list', bool(getattr(v, 'is_array', False)), tuple(fingerprint(x, seen) for x in v.items))
+    if isinstance(v, DictV):
+        return ('dict', tuple((repr(k), fingerprint(x, seen)) for k, x in v.d.items()))
+    return repr(v)
+
+
+HIST_ARGS = ('T', 'P', 'V', 'n')     # what a history step may be called with: symbols of these names
+
+
+def getter_calls(repo, ci):
+    """the history of an object: every public get_* method of its class (found through the MRO, resolved by
+    find_method) that can be called with a temperature / pressure / volume / amount alone -> [(name, parameter names
+    to pass)]; getters that need further arguments (a unit, a state name) are not part of the enumerated histories"""
+    names = []
+    for k in ci.mro:
+        for nm in k.methods:
+            if nm.startswith('get_') and '.' not in nm and nm not in names:
+                names.append(nm)
+    calls = []
+    for nm in names:
+        got = repo.find_method(ci, nm, missing_ok=True)
+        if not got or got[1].decorator_list:
+            continue
+        a = got[1].args
+        pos = [x.arg for x in a.posonlyargs + a.args][1:]
+        required = pos[:len(pos) - len(a.defaults)] + [x.arg for x, d_ in zip(a.kwonlyargs, a.kw_defaults) if d_ is None]
+        if any(p_ not in HIST_ARGS for p_ in required):
+            continue
+        give = list(required)
+        if 'T' not in give and ('T' in pos or 'T' in [x.arg for x in a.kwonlyargs] or a.kwarg is not None):
+            give.append('T')
+        calls.append((nm, give))
+    return calls
 
 
 def check(run, repo):
@@ -370,18 +477,23 @@ def check(run, repo):
         run.check(r is d_ and d_.d == snap, 'PATH.hook-passthrough', 'json.json_to_pmutt', lab,
                   'a dictionary that is not a serialised pMuTT object (%s) must be returned unchanged by the object '
                   'hook; got %s' % (lab, show(r, 80)), jm, hook, sample='json_to_pmutt(%s) is the same dictionary' % lab)
-    order = RankOrder({'w0': 5, 'w1': 7, 'b1': 3}, const_ranks=True)
+    order = RankOrder({'w0': 5, 'w1': 7, 'b1': 3, 'wi': -5, 'wsub': 2}, const_ranks=True)
     I0 = Interp(repo, order=order)
     labels = [lab for lab, _ in builders(I0, repo)]
     run.floor('serialisable classes', len(labels), 30)
-    for idx, label in enumerate(labels):
-        I = Interp(repo, order=order)
-        fn_build = builders(I, repo)[idx][1]
-        try:
-            obj = fn_build()
-        except Problem as e:
-            run.fail('TABLE.construct', label, 'constructor', str(e), jm, None)
-            continue
+
+    def is_public(ci, k):
+        """public state: a public attribute, or the private store of a property of the same name"""
+        if not k.startswith('_'):
+            return True
+        got = repo.find_method(ci, k[1:], missing_ok=True) if ci is not None else None
+        return bool(got) and any(ast.unparse(d_) == 'property' for d_ in got[1].decorator_list)
+
+    def cycle(I, label, obj, hist=None):
+        """one object through encode -> decode -> compare -> encode; hist: the calls made on the object before
+        (None: the object as its constructor left it)"""
+        tail = '' if hist is None else ' after getters'
+        after = '' if hist is None else ' after the calls %s' % hist
         ci = obj.ci
         owner_td = repo.find_method(ci, 'to_dict', missing_ok=True)
         owner_fd = repo.find_method(ci, 'from_dict', missing_ok=True)
@@ -392,9 +504,10 @@ def check(run, repo):
         try:
             enc = encode(I, obj)
         except Problem as e:
-            run.fail('TABLE.encode', ci.name, 'encode', 'encoding fails (%s): %s' % (label, e), mod_td, fn_td)
-            continue
-        run.ok('TABLE.encode', label)
+            run.fail('TABLE.encode', ci.name, 'encode' + tail, 'encoding fails (%s%s): %s' % (label, after, e),
+                     mod_td, fn_td)
+            return
+        run.ok('TABLE.encode', label + tail)
         # decode
         mutated = []
         try:
@@ -402,20 +515,22 @@ def check(run, repo):
         except Problem as e:
             where = str(e).split(':')[0]
             inner = class_at(enc, where) or ci.name
-            run.fail('TABLE.decode', inner, 'decode', 'decoding fails (met while round-tripping %s): %s' % (label, e),
-                     mod_fd, fn_fd)
-            continue
+            run.fail('TABLE.decode', inner, 'decode' + tail,
+                     'decoding fails (met while round-tripping %s%s): %s' % (label, after, e), mod_fd, fn_fd)
+            return
         if not isinstance(dec, Obj):
             cls_str = enc.d.get('class') if isinstance(enc, DictV) else None
-            run.fail('TABLE.registry', ci.name if label != 'omkm.BEP' else 'omkm.BEP', 'decoded-class',
+            run.fail('TABLE.registry', ci.name if label != 'omkm.BEP' else 'omkm.BEP', 'decoded-class' + tail,
                      'decoding returns %s instead of a %s object: class string %s is not resolved by type_to_class '
                      '(not registered, or not a plain string)' % ('the dictionary' if isinstance(dec, DictV)
                                                                    else show(dec, 40), ci.name, show(cls_str, 80)),
                      jm, jm.functions['type_to_class'])
-            continue
-        run.ok('TABLE.registry', label)
+            return
+        run.ok('TABLE.registry', label + tail)
         diffs = []
-        differences(obj, dec, label, diffs)
+        # an object that has been used is compared by its public state (public attributes and what the property
+        # getters return): a cache a getter left behind is not part of what the property promises to restore
+        differences(obj, dec, label, diffs, pub=None if hist is None else is_public)
         # one finding per (class, attribute, what happened to the value): nested occurrences of the same defect
         # collapse, a different defect at the same attribute does not
         seen = set()
@@ -424,9 +539,11 @@ def check(run, repo):
             if (cname, attr, what) in seen:
                 continue
             seen.add((cname, attr, what))
-            run.fail('TABLE.roundtrip', cname, 'attr:' + attr, 'after encode/decode ' + dmsg, mod_td, fn_td, sig=what)
+            run.fail('TABLE.roundtrip', cname, 'attr:' + attr, 'after encode/decode%s ' % after + dmsg, mod_td, fn_td,
+                     sig=what)
         if not diffs:
-            run.ok('TABLE.roundtrip', label, sample='%s: decode(encode(obj)) has the same class and attributes' % label)
+            run.ok('TABLE.roundtrip', label + tail,
+                   sample='%s%s: decode(encode(obj)) has the same class and attributes' % (label, after))
         # decoding must not alter the dictionary it was given
         top = [m_ for m_ in mutated]
         if top:
@@ -435,16 +552,18 @@ def check(run, repo):
                      'decoding alters the dictionary it was given (keys %s removed at %s): decoding the same '
                      'dictionary again no longer finds the class' % (keys, top[0][0]), jm, jm.functions['remove_class'])
         else:
-            run.ok('EFFECT.decode-mutates', label)
+            run.ok('EFFECT.decode-mutates', label + tail)
         # second cycle
         try:
             enc2 = encode(I, dec)
             ok2 = deep_same(enc, enc2)
         except Problem as e:
             ok2 = False
-        if not diffs:
+        if not diffs and hist is None:
             run.check(ok2, 'TABLE.repeat', label, 'second-cycle',
                       'encoding the decoded object does not give the same dictionary again', mod_td, fn_td)
+        if hist is not None:
+            return
         # the direct path: the nested dictionary as to_dict()/a stored document gives it, handed to the decoder as
         # it is (from_dict decodes the nested entries itself). The dictionary must come out as it went in - at every
         # depth - or decoding it a second time meets objects where it expects dictionaries.
@@ -479,6 +598,84 @@ def check(run, repo):
                       'decoding the dictionary of a %s directly alters it: %s %s (decoding is not repeatable)'
                       % (label, fd_[0] if fd_ else '', fd_[1] if fd_ else ''),
                       o_fd[0].module if o_fd else jm, o_fd[1] if o_fd else jm.functions['json_to_pmutt'])
+
+
+    for idx, label in enumerate(labels):
+        I = Interp(repo, order=order)
+        fn_build = builders(I, repo)[idx][1]
+        try:
+            obj = fn_build()
+        except Problem as e:
+            run.fail('TABLE.construct', label, 'constructor', str(e), jm, None)
+            continue
+        cycle(I, label, obj)
+
+    # ---- histories: the property quantifies over objects "the library can construct" and their histories, not only
+    # over objects fresh from the constructor. Every instance is used first - each public getter that takes a
+    # temperature (pressure, volume, amount) alone is called, at two temperatures - and then sent through the cycle:
+    # whatever the getters leave behind in the object (a memo, a flag, a rewritten attribute) must not keep it from
+    # being encoded and decoded, and the public state must come back.
+    def hist_rank(name):
+        # temperature bounds of the empirical species, so that T (300) and T2 (700) lie inside the fitted range
+        for pre, rk in (('Tl_', 100), ('Tm_', 500), ('Th_', 1000), ('T9l', 100), ('T9h', 1000), ('Tsl', 100),
+                        ('Tsh', 1000)):
+            if name.startswith(pre):
+                return rk
+        return None
+    order_h = RankOrder({'w0': 5, 'w1': 7, 'b1': 3, 'wi': -5, 'wsub': 2, 'T': 300, 'T2': 700, 'P': 1, 'V': 1, 'n': 1,
+                         'T9h0': 500, 'T9l1': 500}, const_ranks=True, fallback=hist_rank)
+    n_hist = 0
+    for idx, label in enumerate(labels):
+        I = Interp(repo, order=order_h)
+        try:
+            obj = builders(I, repo)[idx][1]()
+        except Problem:
+            continue                    # reported above
+        if run.tier != 'thorough' and label != 'Reaction' and \
+                any(k_.qual == 'pmutt.reaction.Reaction' for k_ in obj.ci.mro):
+            continue                    # the 21 getters of every further reaction instance: thorough tier
+        calls = getter_calls(repo, obj.ci)
+        # (a) each getter alone, on an object of its own: what a single call leaves behind (quick tier: for the
+        # objects that hold no other pMuTT object - the mode models, equations of state, adjustments)
+        def holds_objects(v, top=True):
+            if isinstance(v, Obj):
+                return (not top) or any(holds_objects(x, False) for x in v.attrs.values())
+            if isinstance(v, ListV):
+                return any(holds_objects(x, False) for x in v.items)
+            if isinstance(v, DictV):
+                return any(holds_objects(x, False) for x in v.d.values())
+            return False
+        for nm, give in (calls if run.tier == 'thorough' or not holds_objects(obj) else []):
+            obj = builders(I, repo)[idx][1]()
+            before = fingerprint(obj)
+            try:
+                I.call_method(obj, nm, [], {p_: I.D.sym(p_) for p_ in give})
+            except _RaisedExc:
+                pass                    # a getter that refuses its arguments is a history step like any other
+            if run.tier != 'thorough' and fingerprint(obj) == before:
+                # the call left nothing behind in the object: the cycle is the one of the fresh object, done above
+                run.ok('EFFECT.getter-state', '%s.%s' % (label, nm))
+                continue
+            cycle(I, label, obj, hist='%s(%s)' % (nm, ', '.join(give)))
+        # (b) all of them on one object, each at two temperatures: what the calls leave behind for each other
+        if len(calls) > 1:
+            obj = builders(I, repo)[idx][1]()
+            before = fingerprint(obj)
+            for nm, give in calls:
+                for t_ in ('T', 'T2'):
+                    try:
+                        I.call_method(obj, nm, [], {p_: I.D.sym(t_ if p_ == 'T' else p_) for p_ in give})
+                    except _RaisedExc:
+                        pass
+                    if 'T' not in give:
+                        break
+            if run.tier != 'thorough' and fingerprint(obj) == before:
+                run.ok('EFFECT.getter-state', '%s.%s' % (label, 'all getters'))
+            else:
+                cycle(I, label, obj, hist='%s, each at T and at T2' % ', '.join(nm for nm, _ in calls))
+        n_hist += 1 if calls else 0
+    run.floor('instances with a history', n_hist, 40 if run.tier != 'thorough' else 50)
+
     # encoder: default() must return (or raise) on every path
     enc_ci = jm.classes.get('pmuttEncoder')
     if enc_ci is None or 'default' not in enc_ci.methods:
